@@ -279,7 +279,7 @@ func (k *rawCmpKind) Canon(raw []byte) []byte {
 	}
 	return append(out, 0)
 }
-func (k *rawCmpKind) Ident(raw []byte) string  { return string(k.Canon(raw)) }
+func (k *rawCmpKind) Ident(raw []byte) string  { return string(raw) } // keys reach the model in canonical form; an unterminated probe is a different (absent) key
 func (k *rawCmpKind) Compare(a, b []byte) int  { return bytes.Compare(k.Canon(a), k.Canon(b)) }
 func (k *rawCmpKind) SameKey(g, w []byte) bool { return bytes.Equal(g, k.Canon(w)) }
 func (k *rawCmpKind) Show(raw []byte) string   { return showBytes(raw) }
